@@ -32,14 +32,30 @@ func runTrgMem(kind string, ops []string) string {
 	b.AddCallback(st(1), func(ctx context.Context, r *workflow.Run[Obj, st], rd io.Reader) (st, error) { return st(2), nil }, st(2))
 	w := b.Build(memstreamer.New(), store, neverRoles{}, workflow.WithLogger(nullLogger{}))
 	w.Run(ctx)
-	defer func() { cancel(); w.Stop() }()
+	// a second workflow of another name on the SAME record store (op u.<fid>): its runs of a foreign ID must not hide, nor be
+	// hidden by, the first workflow's runs of that foreign ID
+	b2 := workflow.NewBuilder[Obj, st]("wf2")
+	b2.AddCallback(st(1), func(ctx context.Context, r *workflow.Run[Obj, st], rd io.Reader) (st, error) { return st(2), nil }, st(2))
+	w2 := b2.Build(memstreamer.New(), store, neverRoles{}, workflow.WithLogger(nullLogger{}))
+	w2.Run(ctx)
+	defer func() { cancel(); w.Stop(); w2.Stop() }()
+	// a third workflow on the same store that is never Run (op n.<fid>): Trigger must fail at once and write nothing
+	b3 := workflow.NewBuilder[Obj, st]("wf3")
+	b3.AddCallback(st(1), func(ctx context.Context, r *workflow.Run[Obj, st], rd io.Reader) (st, error) { return st(2), nil }, st(2))
+	w3 := b3.Build(memstreamer.New(), store, neverRoles{}, workflow.WithLogger(nullLogger{}))
 	var created []string
 	var out []string
 	for _, op := range ops {
 		f := strings.Split(op, ".")
 		switch f[0] {
-		case "t":
-			id, err := w.Trigger(ctx, "f"+f[1])
+		case "t", "u":
+			var id string
+			var err error
+			if f[0] == "t" {
+				id, err = w.Trigger(ctx, "f"+f[1])
+			} else {
+				id, err = w2.Trigger(ctx, "f"+f[1])
+			}
 			switch {
 			case err == nil:
 				created = append(created, id)
@@ -49,6 +65,18 @@ func runTrgMem(kind string, ops []string) string {
 			default:
 				out = append(out, "err")
 			}
+		case "n":
+			_, err := w3.Trigger(ctx, "f"+f[1])
+			res := "ok"
+			if err != nil {
+				res = "err"
+			}
+			if _, lerr := store.Latest(ctx, "wf3", "f"+f[1]); errors.Is(lerr, workflow.ErrRecordNotFound) {
+				res += ":none"
+			} else {
+				res += ":wrote"
+			}
+			out = append(out, res)
 		case "w":
 			k := atoi(f[1])
 			if k < 1 || k > len(created) {
@@ -73,13 +101,21 @@ func genTrgMem(p *params, emit func(string, bool)) {
 	// the composition that matters: run 1 finished, run 2 unfinished, run 1 written again (deletion), Trigger
 	emit("trgmem t.1 w.1.5 t.1 w.1.7 w.1.6 t.1", true)
 	emit("trgmem t.1 w.1.4 t.1 w.2.2 w.1.7 t.1 w.2.5 t.1", true)
+	// two workflows on one store, one foreign ID: each has its own latest run
+	emit("trgmem t.1 u.1 t.1 u.1 w.1.5 u.1 t.1 w.2.4 u.1 t.1", true)
+	// Trigger on a workflow that is not running: an error, nothing written
+	emit("trgmem n.1 t.1 n.1 n.2 w.1.5 n.1", true)
 	for i := 0; i < p.pick(300, 6000); i++ {
 		var ops []string
 		nt := 0
 		n := 3 + r.Intn(12)
 		for j := 0; j < n; j++ {
 			if nt == 0 || r.Intn(2) == 0 {
-				ops = append(ops, fmt.Sprintf("t.%d", 1+r.Intn(2)))
+				if i%3 == 2 && r.Intn(2) == 0 {
+					ops = append(ops, fmt.Sprintf("u.%d", 1+r.Intn(2)))
+				} else {
+					ops = append(ops, fmt.Sprintf("t.%d", 1+r.Intn(2)))
+				}
 				nt++ // upper bound on the runs created
 			} else {
 				ops = append(ops, fmt.Sprintf("w.%d.%d", 1+r.Intn(nt), 1+r.Intn(7)))
@@ -91,5 +127,5 @@ func genTrgMem(p *params, emit func(string, bool)) {
 
 func init() {
 	families["trgmem"] = &family{gen: genTrgMem, run: runTrgMem,
-		rule: "trgmem: Workflow.Trigger on the real memrecordstore (no background process), 2 foreign IDs, interleaved with run-state writes to any earlier run (all 7 states): refused exactly while the most recently created run of the foreign ID is unfinished"}
+		rule: "trgmem: Workflow.Trigger on the real memrecordstore (no background process), 2 foreign IDs, in a third of the cases two workflows of different names sharing the store, interleaved with run-state writes to any earlier run (all 7 states): refused exactly while the most recently created run of the foreign ID is unfinished"}
 }
